@@ -125,7 +125,11 @@ func genCase(t *rapid.T) Case {
 	// the target or both: ratios stay as generated, magnitudes do not
 	if rapid.IntRange(0, 2).Draw(t, "common") == 0 {
 		k := float32(math.Pow(10, rapid.Float64Range(-25, 25).Draw(t, "commonexp")))
-		switch rapid.IntRange(0, 2).Draw(t, "commonwhat") {
+		switch rapid.IntRange(0, 3).Draw(t, "commonwhat") {
+		case 3:
+			// opposite ends of the range: the size ratio itself (up to 1e62) is beyond float32,
+			// the result (of the target's magnitude) is not
+			w, h, dx, dy = w*k, h*k, dx/k, dy/k
 		case 0:
 			w, h = w*k, h*k
 		case 1:
